@@ -564,6 +564,57 @@ impl<'a> Sweep<'a> {
     }
 }
 
+impl<'a> Sweep<'a> {
+    /// The min filtered block number moved (a user's set_scripts `all` with one script from block
+    /// m, for EVERY m up to two blocks beyond the chain the world has) while BlockFilters answers
+    /// are on their way: every honest BlockFilters message of the sync history arrives with the
+    /// start number m + 1 (continuous with the new number, whatever the cached / agreed filter
+    /// hashes cover at that moment) and once more as it was.
+    fn filter_start_grid(&mut self, scn: Scn, history: &[(Proto, String, ckb_network::bytes::Bytes)]) {
+        if !matches!(scn, Scn::Ready | Scn::CheckPoints | Scn::FilterHashes | Scn::Filters | Scn::MatchedBlocksProof | Scn::MatchedBlocks) {
+            return;
+        }
+        let answers: Vec<packed::BlockFilters> = history
+            .iter()
+            .filter(|(p, _, _)| *p == Proto::Filter)
+            .filter_map(|(_, _, d)| match packed::BlockFilterMessage::from_slice(d).map(|m| m.to_enum()) {
+                Ok(packed::BlockFilterMessageUnion::BlockFilters(m)) => Some(m),
+                _ => None,
+            })
+            .collect();
+        let top = self.w.main.tip_number() + 2;
+        let mut sim_opt: Option<Sim> = None;
+        for m in 0..=top {
+            let prepare = |env: &Env, w: &Worlds, old: Option<Sim>| {
+                let (mut sim, _) = match old {
+                    Some(o) => build_on(env, w, scn, Some(o)),
+                    None => build(env, w, scn),
+                };
+                crate::verif::explore::user_set_scripts(&mut sim, 0, &[(env.scripts.a.clone(), true, m)]);
+                let _ = sim.c().out.take_sent();
+                sim
+            };
+            let mut sim = prepare(self.env, self.w, sim_opt.take());
+            let mut before = sim.c().light_print();
+            for (k, f) in answers.iter().enumerate() {
+                for (variant, start) in [("start=m+1", m + 1), ("as-it-was", Unpack::<u64>::unpack(&f.start_number()))] {
+                    let msg = packed::BlockFilterMessage::new_builder().set(f.clone().as_builder().start_number(start.pack()).build()).build();
+                    let label = format!("filter-start-grid: set_scripts(all, A from block {}), then BlockFilters #{} of the history with {} ({})", m, k, variant, start);
+                    crate::verif::props::shard::journal(&label);
+                    self.post_label = "";
+                    if self.deliver(&mut sim, scn, &before, &Proto::Filter, 1, msg.as_bytes(), &label) {
+                        self.rebuilds += 1;
+                        sim = if self.last_panicked { prepare(self.env, self.w, None) } else { prepare(self.env, self.w, Some(sim)) };
+                        before = sim.c().light_print();
+                    }
+                }
+            }
+            sim_opt = Some(sim);
+        }
+        self.report.count("filter_start_grid/min_filtered_values_x_scenarios", top + 1);
+    }
+}
+
 pub(crate) fn run(opts: &Opts, report: &mut Report) {
     let thorough = opts.thorough();
     let specs: Vec<&str> = if thorough {
@@ -574,7 +625,8 @@ pub(crate) fn run(opts: &Opts, report: &mut Report) {
     // parts: 0 = single-message mutants of the pending answers; 1 = two-message sequences + cross
     // alphabet; 2, 3 = the cross alphabet after a user call (set_scripts all / partial from
     // block 0) made behind the handlers' back
-    const PARTS: usize = 4;
+    // 4 = the filter start grid (every min filtered block number x every BlockFilters answer)
+    const PARTS: usize = 5;
     let items = specs.len() * ALL_SCN.len() * PARTS;
     let worker = crate::verif::props::shard::run("C10", opts, report, items, 16, |item, report| {
         let part_raw = item % PARTS;
@@ -583,11 +635,30 @@ pub(crate) fn run(opts: &Opts, report: &mut Report) {
             0 => (0usize, 0u8),
             1 => (1, 0),
             2 => (2, 1),
-            _ => (2, 2),
+            3 => (2, 2),
+            _ => (9, 0),
         };
         let env = Env::new(specs[item / ALL_SCN.len()]);
         let scn = ALL_SCN[item % ALL_SCN.len()];
         let w = worlds(&env);
+        if part == 9 {
+            let hist = history_alphabet(&env, &w);
+            let mut sweep = Sweep { env: &env, w: &w, report, deliveries: 0, rebuilds: 0, panics_seen: 0, state_changes: 0, bans: 0, sites: BTreeMap::new(), last_panicked: false, post_label: "" };
+            sweep.filter_start_grid(scn, &hist);
+            let (d, r, p, c, b) = (sweep.deliveries, sweep.rebuilds, sweep.panics_seen, sweep.state_changes, sweep.bans);
+            let sites = std::mem::take(&mut sweep.sites);
+            drop(sweep);
+            report.count("transitions", d);
+            report.count("filter_start_grid/deliveries", d);
+            report.count("rebuilds_after_state_change_or_panic", r);
+            report.count("panics", p);
+            report.count("deliveries_that_changed_state", c);
+            report.count("bans", b);
+            for (k, v) in sites {
+                report.count(&format!("panic_site/{}", k), v);
+            }
+            return;
+        }
         // the cross alphabet: honest home messages of every scenario + their structural mutants
         // + re-sealed twins + one bare message of every union variant + junk
         let mut cross: Vec<(Proto, String, ckb_network::bytes::Bytes)> = vec![];
@@ -660,7 +731,7 @@ pub(crate) fn run(opts: &Opts, report: &mut Report) {
     }
     // a worker that died took the process down with it: that is exactly what C10 forbids
     for (item, why) in crate::verif::props::shard::DEAD.lock().unwrap().iter() {
-        let scn = ALL_SCN[(item / 4) % ALL_SCN.len()];
+        let scn = ALL_SCN[(item / PARTS) % ALL_SCN.len()];
         report.violation(
             format!("process-abort/{:?}", scn),
             format!("the worker process for scenario {:?} died: {}", scn, why),
